@@ -4,6 +4,7 @@
 (* Engine.tla.  Lines of the trace:                                        *)
 (*  [ev |-> "reset", case]                                                 *)
 (*  [ev |-> "step", case, op, ret, res, again, saved,   sequential step    *)
+(*   (ret = "fatal" | "timeout": the step killed the executing process)    *)
 (*   tmod, bmod, dmod, ptmod, pbmod, pdmod, cache, probe]                  *)
 (*  [ev |-> "conc", case, mode, setup, calls, final,    one concurrent run *)
 (*   races, fatal, gates]                                                  *)
@@ -34,7 +35,10 @@ Each(kind, fields) == {<<kind, fields[i]>> : i \in 1..Len(fields)}
 Entries == {"doc", "tpl"}
 Probed(r) == r.st # ""
 
+Crashed(e) == e.ret \in {"fatal", "timeout"}     \* the step killed (or hung) the executing process
+
 JudgeStep(e) ==
+  IF Crashed(e) THEN {<<"crash", e.ret, e.op.op>>} ELSE
   LET op   == Norm(e.op)
       name == op.op
       exp  == Apply(cur, op)
@@ -85,8 +89,8 @@ TStep == /\ l <= Len(Trace) /\ Trace[l].ev = "step"
               THEN /\ np' = SeqToSet(e.op.names) /\ pd' = e.op.data
                    /\ UNCHANGED <<cur, pp, hp, wit>>
               ELSE /\ wit' = AddWit(wit, Tag(JudgeStep(e)), e.case)
-                   /\ cur' = Resync(e)
-                   /\ pp' = e.probe /\ hp' = TRUE
+                   /\ IF Crashed(e) THEN cur' = Apply(cur, Norm(e.op)) /\ pp' = pp /\ hp' = FALSE
+                      ELSE cur' = Resync(e) /\ pp' = e.probe /\ hp' = TRUE
                    /\ UNCHANGED <<np, pd>>
          /\ l' = l + 1
 
